@@ -112,8 +112,15 @@ main(int argc, char **argv)
 		set_buffers(&sc, slayout, sfrag, (int)vf_below(&r, 3) == 0 ? 1 : 0);
 		suite_list[0] = pv->s->id;
 		cc.suites = suite_list; cc.nsuites = 1;
-		cc.vmin = cc.vmax = pv->version;
-		sc.vmin = 0x0301; sc.vmax = 0x0303;
+		/* who narrows the version: the client offers exactly it, or the server is limited to it while
+		   the client offers more (the negotiated version is then below the client's maximum), or
+		   both have it as their maximum */
+		switch ((int)vf_below(&r, 3)) {
+		case 0: cc.vmin = cc.vmax = pv->version; sc.vmin = 0x0301; sc.vmax = 0x0303; break;
+		case 1: cc.vmin = 0x0301; cc.vmax = 0x0303; sc.vmin = sc.vmax = pv->version; break;
+		default: cc.vmin = 0x0301; cc.vmax = pv->version; sc.vmin = 0x0301; sc.vmax = pv->version; break;
+		}
+		vf_distinct("version_shape", "%04x c%04x-%04x s%04x-%04x kx%d", pv->version, cc.vmin, cc.vmax, sc.vmin, sc.vmax, pv->s->kx);
 		sc.keykind = keykind;
 		vf_bytes(&r, cc.seed, 32);
 		vf_bytes(&r, sc.seed, 32);
